@@ -373,29 +373,7 @@ func runCrash2(sc scenario, cut int, tail string, cut2 int, inherited map[string
 		// real OnStart: opens the real WAL on the surviving file, catch-up replay, repair on corruption
 		stage = "start"
 		var startErr error
-		// OnStart launches the real receive routine at its end; the harness owns the schedule, so the own messages the
-		// catch-up has queued are taken out before that routine starts (it then finds nothing to do until it is stopped)
-		// and are put back afterwards, in order. Without this the routine and Stop race for them.
-		var held []consensus.VerifMsgInfo
-		node := nn
-		node.Tick.OnStart = func() {
-			for {
-				mi, more := node.CS.VerifPopInternal()
-				if !more {
-					return
-				}
-				held = append(held, mi)
-			}
-		}
-		msg, frame = ev.Try(func() {
-			startErr = nn.CS.Start()
-			nn.CS.Stop()
-			nn.CS.VerifWaitDone()
-			node.Tick.OnStart = nil
-			for _, mi := range held {
-				node.CS.VerifPushInternal(mi)
-			}
-		})
+		msg, frame = ev.Try(func() { startErr = nn.StartReal() })
 		if dead() {
 			imgDB, imgWAL = nextDB, nextWAL
 			continue
